@@ -3,6 +3,7 @@ package main
 import (
 	"fmt"
 	"go/ast"
+	"regexp"
 	"go/token"
 	"sort"
 	"strings"
@@ -102,6 +103,18 @@ func hasCond(t fsmTrans, want string) bool {
 	return false
 }
 
+var delimCondRe = regexp.MustCompile(`^\+\w+\[\*\]==\+[A-Za-z_]\w*$`)
+
+// hasDelimCond: the path took the true edge of `inputByte == <variable>` (the configured separator / terminator).
+func hasDelimCond(t fsmTrans) bool {
+	for _, cd := range t.Conds {
+		if delimCondRe.MatchString(cd) {
+			return true
+		}
+	}
+	return false
+}
+
 func hasCondContaining(t fsmTrans, sub string, positive bool) bool {
 	for _, cd := range t.Conds {
 		if strings.Contains(cd, sub) && strings.HasPrefix(cd, "!") != positive {
@@ -144,13 +157,13 @@ func ruleL2(c *Ctx) {
 			c.ok("L2", "keep:"+key, token.NoPos, "linear whitespace, consumed through skipLWS")
 		case hasCond(t, "tokAllowedChar()"):
 			c.ok("L2", "keep:"+key, token.NoPos, "kept after tokAllowedChar accepted it")
-		case hasCondContaining(t, "==+sep", true), hasCondContaining(t, "==+term", true):
+		case hasDelimCond(t):
 			c.ok("L2", "keep:"+key, token.NoPos, "the configured separator / terminator")
 		case t.Bytes.eq(setOfString("=")) || t.Bytes.eq(setOfString("\"")):
 			c.ok("L2", "keep:"+key, token.NoPos, "structural delimiter "+t.Bytes.String())
 		case from == "paramFNxt" || from == "paramInit" || from == "paramInitNxtVal":
 			// separators repeated between items are skipped (c == sep)
-			c.check(hasCondContaining(t, "==+sep", true), "L2", "keep:"+key, token.NoPos, "between items only the separator is skipped")
+			c.check(hasDelimCond(t), "L2", "keep:"+key, token.NoPos, "between items only the separator is skipped")
 		default:
 			c.fail("L2", "keep:"+key, token.NoPos, "a byte is absorbed in a token state without passing tokAllowedChar or being a delimiter")
 		}
@@ -207,6 +220,26 @@ func ruleL3(c *Ctx) {
 	qm, comma, sp := f("POptTokQmTermF"), f("POptTokCommaTermF"), f("POptTokSpTermF")
 	_ = semi
 	_ = sp
+	// the separator / terminator variables are found by the values they take, not by name
+	domain := map[string]map[string]bool{}
+	for _, t := range paths {
+		for k, v := range t.Locals {
+			if domain[k] == nil {
+				domain[k] = map[string]bool{}
+			}
+			domain[k][v] = true
+		}
+	}
+	sepN, termN := "", ""
+	for k, vs := range domain {
+		if vs["+59"] && vs["+38"] && len(vs) == 2 {
+			sepN = k
+		}
+		if vs["+0"] && vs["+63"] && vs["+44"] && len(vs) == 3 {
+			termN = k
+		}
+	}
+	c.check(sepN != "" && termN != "", "L3", "variables", token.NoPos, "separator variable (values ';' '&') and terminator variable (values none '?' ',') identified: "+sepN+", "+termN)
 	n := 0
 	for _, t := range paths {
 		if t.Exit != "" {
@@ -236,8 +269,8 @@ func ruleL3(c *Ctx) {
 		} else if set[comma] {
 			wantTerm = "+44" // ','
 		}
-		c.check(okAll && t.Locals["sep"] == wantSep && t.Locals["term"] == wantTerm, "L3", key, token.NoPos,
-			fmt.Sprintf("separator %s terminator %s for this option combination (want %s / %s)", t.Locals["sep"], t.Locals["term"], wantSep, wantTerm))
+		c.check(okAll && t.Locals[sepN] == wantSep && t.Locals[termN] == wantTerm, "L3", key, token.NoPos,
+			fmt.Sprintf("separator %s terminator %s for this option combination (want %s / %s)", t.Locals[sepN], t.Locals[termN], wantSep, wantTerm))
 	}
 	c.check(n >= 6, "L3", "paths", token.NoPos, fmt.Sprintf("%d option combinations of the prologue enumerated", n))
 	// wrappers OR in the documented options
